@@ -17,7 +17,7 @@ class Dups:
 
     def bound(self, tier):
         return ("(same directory reused by every case of the run) all assignments of 6 contents (incl. empty, differing in last byte / length) to <=4 files, "
-                "each file optionally a symlink to an earlier one, one optional excluded twin"
+                "each file optionally a symlink or a hard link to the first one, one optional excluded twin"
                 + ("" if tier == "quick" else "; plus 300 random code bases of <=9 files in nested dirs"))
 
     def inputs(self, tier, seed):
@@ -39,12 +39,19 @@ class Dups:
                 for link in [None] + list(range(1, n)):
                     for excl in (False, True):
                         yield {"contents": list(contents), "link": link, "exclude_last": excl, "nested": False}
+                        for hard in range(1, n):
+                            if hard != link:       # a second NAME of the first file (hard link): a regular file like any other
+                                yield {"contents": list(contents), "link": link, "hard": hard, "exclude_last": excl, "nested": False}
         if tier != "quick":
             rng = random.Random(seed)
             for _ in range(300):
                 n = rng.randint(2, 9)
-                yield {"contents": [rng.randrange(len(POOL)) for _ in range(n)],
-                       "link": rng.choice([None] + list(range(1, n))), "exclude_last": rng.random() < 0.3, "nested": True}
+                case = {"contents": [rng.randrange(len(POOL)) for _ in range(n)],
+                        "link": rng.choice([None] + list(range(1, n))), "exclude_last": rng.random() < 0.3, "nested": True}
+                hard = random.Random(seed * 1000 + _).choice([None] + list(range(1, n)))
+                if hard is not None and hard != case["link"]:
+                    case["hard"] = hard
+                yield case
 
     def nontrivial(self, inp):
         c = inp["contents"]
@@ -83,6 +90,8 @@ class Dups:
                 p = os.path.join(d, f"f{i}.c")
                 if inp["link"] is not None and i == inp["link"]:
                     os.symlink(paths[0], p)
+                elif inp.get("hard") is not None and i == inp["hard"]:
+                    os.link(paths[0], p)
                 else:
                     with open(p, "wb") as fh:
                         fh.write(POOL[ci])
@@ -94,7 +103,10 @@ class Dups:
             if inp["exclude_last"]:
                 excl = [os.path.basename(paths[-1])]
             cb = CodeBase(root, exclude_patterns=excl)
-            members = [Path(p) for p in cb if not Path(p).is_symlink()]
+            # the members by the statement, from the files this case created (not from the tool's own enumeration):
+            # every name that is not a symbolic link and not excluded
+            members = [Path(p) for i, p in enumerate(paths)
+                       if not os.path.islink(p) and not (inp["exclude_last"] and i == len(paths) - 1)]
             classes = {}
             for p in members:
                 classes.setdefault(p.read_bytes(), set()).add(p)
